@@ -170,6 +170,8 @@ func (e *c08Env) input(s c08Shape) (data []byte, what string, ok bool) {
 					ts = append(ts, tWrong)
 				case "null":
 					ts = append(ts, tNull)
+				case "direct":
+					ts = append(ts, tDirect)
 				}
 			}
 			return ts
@@ -822,4 +824,33 @@ func c08Main() {
 		w.line(b)
 	}
 	h.Summary(map[string]any{"cases": len(cases), "records": w.n, "ops": nops, "dead": dead, "timeouts_not_confirmed": r.unconfirmed})
+}
+
+// c08Emit writes the concrete input of the first shape in --in to --out (for replaying a reported violation by hand).
+func c08Emit() {
+	var c c08Case
+	if err := h.EachLine(h.Arg("--in"), func(line []byte) error {
+		if c.Shape.Fam == "" {
+			return json.Unmarshal(line, &c)
+		}
+		return nil
+	}); err != nil {
+		h.Die("c08-emit: %v", err)
+	}
+	dir, _ := os.MkdirTemp("", "c08-emit-")
+	defer os.RemoveAll(dir)
+	e := &c08Env{dir: dir, mutK: h.ArgInt("--mutk", 12), truncK: h.ArgInt("--trunck", 12)}
+	var err error
+	if e.samples, err = loadSamples(h.Arg("--repo"), dir); err != nil {
+		h.Die("c08-emit: %v", err)
+	}
+	e.loadBases(h.Arg("--repo"))
+	data, what, ok := e.input(c.Shape)
+	if !ok {
+		h.Die("c08-emit: the shape has no concrete input")
+	}
+	if err := os.WriteFile(h.Arg("--out"), data, 0o644); err != nil {
+		h.Die("c08-emit: %v", err)
+	}
+	fmt.Printf("%s %s (%d bytes)\n", c.Shape.key(), what, len(data))
 }
